@@ -66,6 +66,8 @@ Pool == << [kind |-> "ok",        tg |-> Tagged(Simple)],
            [kind |-> "nosol",     tg |-> Tagged(Unsolvable)],
            [kind |-> "malformed", tg |-> SetSlot(Tagged(Fig55), 4, 2, 2, PInt(7))],
            [kind |-> "malformed", tg |-> SetRow(Tagged(Simple), 2, PNone)],
+           \* a row that is a truthy object without a length
+           [kind |-> "malformed", tg |-> SetRow(Tagged(Simple), 1, PInt(2))],
            \* successor index exactly n (one past the last state) on a state that is swept
            [kind |-> "malformed", tg |-> SetSlot(Tagged(Simple), 1, 1, 2, PInt(3))] >>
 
@@ -86,6 +88,13 @@ Collision == << [name |-> "x", kind |-> "ok", tg |-> Tagged(Simple)],
                 [name |-> "x_no_prune", kind |-> "okdead", tg |-> Tagged(DeadHeavy)] >>
 
 \* always included: games that share their graph but not their goal, in both orders
+\* descriptions that carry a prune_states key of their own (a legal constructor argument,
+\* which the runner must override in both passes)
+OwnFlag == { << [name |-> "says_unpruned", kind |-> "okdead", tg |-> Tagged(DeadHeavy), ps |-> "false"],
+                [name |-> "says_pruned", kind |-> "okdead", tg |-> Tagged(Fig55), ps |-> "true"] >>,
+             << [name |-> "hopeless_says_unpruned", kind |-> "nosol", tg |-> Tagged(Unsolvable), ps |-> "false"],
+                [name |-> "plain", kind |-> "ok", tg |-> Tagged(Simple), ps |-> "none"] >> }
+
 Twins == { << [name |-> "v13", kind |-> "ok", tg |-> Tagged(Variant(1, 3))], [name |-> "v31", kind |-> "ok", tg |-> Tagged(Variant(3, 1))] >>,
            << [name |-> "v31", kind |-> "ok", tg |-> Tagged(Variant(3, 1))], [name |-> "simple", kind |-> "ok", tg |-> Tagged(Simple)],
               [name |-> "v13", kind |-> "ok", tg |-> Tagged(Variant(1, 3))] >>,
@@ -93,7 +102,7 @@ Twins == { << [name |-> "v13", kind |-> "ok", tg |-> Tagged(Variant(1, 3))], [na
            << [name |-> "to3", kind |-> "ok", tg |-> Tagged(TwinB)], [name |-> "to4", kind |-> "ok", tg |-> Tagged(TwinA)] >> }
 
 BatchCases ==
-    LET base == (IF Family = "all" THEN AllDicts ELSE RandomSubset(K, AllDicts)) \cup Twins
+    LET base == (IF Family = "all" THEN AllDicts ELSE RandomSubset(K, AllDicts)) \cup Twins \cup OwnFlag
         q == SetToSeq(base)
     IN  [i \in 1..(Len(q) + 3) |->
             IF i > Len(q) + 1 THEN [games |-> <<>>, file |-> IF i = Len(q) + 2 THEN "empty_0" ELSE "no_games_yet"] ELSE
